@@ -19,6 +19,14 @@ THEOREMS = [
     "C17_gives_up_only_over_budget",
     "C17_exactly_once_any_splitter",
     "C17_httpx_splitter_refuted",
+    "C17_run_is_live",
+    "C17_live_never_duplicates",
+    "C17_live_exactly_once",
+    "C17_reconnect_cursors",
+    "C17_last_sequence_at_every_yield",
+    "C17_chunking_irrelevant",
+    "C17_cursor_text_roundtrip",
+    "C17_reader_source_shape",
 ]
 LEAN_TARGETS = ["WfProps.C17"]
 EXPLANATION = (
@@ -217,6 +225,122 @@ def gen_case(rng: random.Random, family: str = "mixed") -> dict:
             "conns": gen_conns(rng, evs, payloads, c0n, hb_on, family), "family": family}
 
 
+# ---- a log that grows while the client streams
+
+
+def gen_live_case(rng: random.Random) -> dict:
+    """The run appends its events between the scripted connections ("vis": how many events are in the
+    store when the connection is made) and, on some connections, while the connection is open ("vis2":
+    how many there are after the append, which happens GROW_AT virtual seconds after the response
+    started).  Only the last connection is undisturbed, and it sees the whole log."""
+    while True:
+        evs, status = gen_events(rng)
+        if len(evs) >= 2:
+            break
+    n = len(evs)
+    payloads = [sse.payload_of(e) for e in evs]
+    seqs = [e["seq"] for e in evs]
+    r = rng.random()
+    c0: Any = (-1 if rng.random() < 0.85 else "D") if r < 0.6 else (rng.choice(seqs[:-1]) if r < 0.9 else rng.randint(-3, seqs[-1] + 1))
+    c0n = -1 if c0 == "D" else c0
+    mid = rng.random() < 0.6          # appends while a connection is open (heartbeats off then)
+    hb_on = (not mid) and rng.random() < 0.3
+    beat = len(b": heartbeat\n\n")
+    conns: list[dict] = []
+    vis = rng.choice([0, 0, 1, 1, 2]) if n > 2 else rng.choice([0, 1])
+    cursor = c0n                      # rough estimate of the client's cursor, only to aim the drops
+    for _ in range(rng.choice([1, 2, 2, 3, 3, 4, 5, 6])):
+        vis = min(n, vis + rng.choice([0, 0, 1, 1, 2, 3]))
+        conn: dict = {"vis": vis}
+        vend = vis
+        if mid and vis < n and c0n < seqs[vis] and rng.random() < 0.6:
+            vend = min(n, vis + rng.choice([1, 1, 2, 3]))
+            conn["vis2"] = vend
+        x = rng.random()
+        if x < 0.22:
+            conn["f"] = "refuse"
+        elif x < 0.90:
+            rem = [i for i in range(vend) if seqs[i] > cursor]
+            hb = [rng.choice([0, 0, 0, 1, 2]) for _ in range(len(rem) + 1)] if hb_on and rng.random() < 0.7 else []
+            lens = [frame_len(evs[i], payloads[i]) for i in rem]
+            starts, pos = [], 0
+            for j, (a, b, t) in enumerate(lens):
+                pos += (hb[j] if j < len(hb) else 0) * beat
+                starts.append(pos)
+                pos += t
+            if not lens or rng.random() < 0.15:
+                off = rng.choice([0, 1, 3, pos + 5])
+                conn["aim"] = "any"
+            else:
+                j = rng.randrange(len(lens))
+                a, b, t = lens[j]
+                where = rng.choice(["in-id", "after-id", "in-tag", "json-start", "in-json", "in-json", "before-nl", "between-nl",
+                                    "frame-end", "next-first"])
+                off = starts[j] + {"in-id": rng.randint(1, max(1, a - 2)), "after-id": a, "in-tag": a + rng.randint(1, 5),
+                                   "json-start": b, "in-json": rng.randint(b + 1, max(b + 1, t - 3)), "before-nl": t - 2,
+                                   "between-nl": t - 1, "frame-end": t, "next-first": t + 1}[where]
+                conn["aim"] = where
+            conn.update({"f": "drop" if x < 0.84 else "tread", "n": max(0, off),
+                         "chunks": [rng.choice([1, 2, 3, 5, 7, 16, 64, 1000, 1 << 20]) for _ in range(rng.randint(1, 4))], "hb": hb})
+            for j, (a, b, t) in enumerate(lens):
+                if starts[j] + t - 1 <= conn["n"]:
+                    cursor = seqs[rem[j]]
+        elif x < 0.94:
+            conn["f"] = "tconn"
+        else:
+            conn.update({"f": "status", "code": rng.choice([404, 500, 503])})
+        conns.append(conn)
+        vis = vend
+    rem = [i for i in range(n) if seqs[i] > cursor]
+    conns.append({"f": "none", "vis": n, "chunks": [rng.choice([1, 4, 13, 100, 1 << 20]) for _ in range(rng.randint(1, 3))],
+                  "hb": [rng.choice([0, 0, 1]) for _ in range(len(rem) + 1)] if hb_on else []})
+    mx: Any = rng.choice([1, 2, 3, 3, 4, 5, "D"]) if rng.random() < 0.8 else rng.choice([0, 1])
+    return {"events": evs, "status": status, "c0": c0, "max": mx, "hb": 5.0 if hb_on else None, "conns": conns,
+            "family": "live", "live": True}
+
+
+# ---- the line iterator, int() and str() on their own
+
+LINE_PIECES = ["id: 5", "data: {\"k\":1}", "data: {\"m\":\"a\u2028b\"}", ": heartbeat", "", "x", " ", "\r", "é", "日本", "😀", "\x85", "\x0b", "\x0c",
+               "\x1c", "\u2029", "id:", "tail"]
+
+
+def gen_chunks(rng: random.Random) -> tuple[list[str], bool]:
+    text = ""
+    for _ in range(rng.randint(0, 8)):
+        text += rng.choice(LINE_PIECES)
+        if rng.random() < 0.75:
+            text += rng.choice(["\n", "\n", "\n\n", "\r\n"])
+    chunks: list[str] = []
+    pos = 0
+    while pos < len(text):
+        if rng.random() < 0.12:
+            chunks.append("")
+        k = rng.choice([1, 1, 2, 3, 5, 8, 20, 1000])
+        chunks.append(text[pos:pos + k])
+        pos += k
+    if rng.random() < 0.2:
+        chunks.append("")
+    return chunks, rng.random() < 0.6
+
+
+INT_DIGITS = "0123456789" + "٠١٢٣٤٥٦٧٨٩" + "०१२" + "０１９" + "𝟘𝟡"
+INT_OTHER = ["_", "_", "+", "-", " ", "\t", "\n", "\u2028", "\xa0", "\x1c", "x", ".", "e", "²", "Ⅷ", "__", "٫", ""]
+
+
+def gen_int_text(rng: random.Random) -> str:
+    r = rng.random()
+    if r < 0.15:
+        return rng.choice(ID_TEXTS)
+    if r < 0.45:
+        return rng.choice(["", "", " ", "-", "+"]) + "".join(rng.choice(INT_DIGITS[:10]) for _ in range(rng.randint(1, 25))) + rng.choice(["", "", " ", "\n"])
+    parts = [rng.choice(["", "", " ", "\t", "\u3000"]), rng.choice(["", "", "-", "+", "- ", "+-"])]
+    for _ in range(rng.randint(0, 6)):
+        parts.append(rng.choice(INT_DIGITS) if rng.random() < 0.75 else rng.choice(INT_OTHER))
+    parts.append(rng.choice(["", "", " ", "\r\n", "\x85"]))
+    return "".join(parts)
+
+
 # ---- hand-written bodies (malformed-stream correspondence)
 
 VALID_JSON = [
@@ -299,6 +423,14 @@ def conn_tok(conn: dict) -> str:
     return f"{fault_tok(conn)}~{','.join(map(str, conn.get('hb', [])))}~{raw}"
 
 
+def live_conn_tok(case: dict, conn: dict) -> str:
+    """the snapshot of that connection: the events in the store by the time it ends, and whether the
+    handler's status is terminal by then"""
+    vend = conn.get("vis2", conn["vis"])
+    sd = 1 if (vend >= len(case["events"]) and status_done(case)) else 0
+    return f"{conn_tok(conn)}~{vend}:{sd}"
+
+
 def status_done(case: dict) -> bool:
     return case.get("status", "running") in ("completed", "failed", "cancelled")
 
@@ -312,6 +444,8 @@ def op_line(case: dict, payloads: list[str], terminals: list[bool]) -> str:
         evs = ";".join(f"{e['seq']}:{1 if t else 0}:{cps(p)}" for e, p, t in zip(case["events"], payloads, terminals))
         valid = ""
         sd = "1" if status_done(case) else "0"
+    if case.get("live"):
+        return "|".join(["live", str(case["max"]), str(case["c0"]), evs, valid, ";".join(live_conn_tok(case, c) for c in case["conns"])])
     return "|".join(["run", str(case["max"]), str(case["c0"]), sd, evs, valid, ";".join(conn_tok(c) for c in case["conns"])])
 
 
@@ -453,6 +587,9 @@ def run(env: Env) -> Outcome:
         cases.append(gen_case(rng, fam))
     for _ in range(env.budget(350, 6000)):
         cases.append(gen_raw_case(rng))
+    rng_live = random.Random(rng.randrange(1 << 30))
+    for _ in range(env.budget(450, 9000)):
+        cases.append(gen_live_case(rng_live))
 
     ops: list[str] = []
     impl: list[str] = []
@@ -486,6 +623,11 @@ def run(env: Env) -> Outcome:
                 out.count("payload:" + e.get("cls", "corpus"))
             if case.get("hb"):
                 out.count("heartbeats:on")
+            if case.get("live"):
+                vs = [c["vis"] for c in case["conns"]]
+                out.count("live:appends-between-connections:%d" % min(3, sum(1 for a, b in zip(vs, vs[1:]) if b > a)))
+                out.count("live:appends-while-open:%d" % min(3, sum(1 for c in case["conns"] if c.get("vis2") is not None)))
+                out.count("live:first-connection-sees:%s" % ("nothing" if vs[0] == 0 else "part"))
             out.violations += monitor(case, obs, payloads, terminals)
         if len(obs["reqs"]) > 1 and obs["yielded"]:
             out.nontrivial(json.dumps(case, sort_keys=True, default=repr))
@@ -516,17 +658,52 @@ def run(env: Env) -> Outcome:
         impl2.append(f"status={st}" if body is None else f"stream closes={1 if closed else 0} body={cps(body)}")
         ctx.append({"framing": True, "events": evs, "status": status, "cursor": cur, "hb": hb, "hb_interval": case["hb"]})
 
+    # ---- the client's line iterator alone: arbitrary chunkings, with and without a clean end
+    ops3: list[str] = []
+    impl3: list[str] = []
+    rng3 = random.Random(rng.randrange(1 << 30))
+    for i in range(env.budget(300, 5000)):
+        chunks, eof = gen_chunks(rng3)
+        ops3.append("|".join(["lines", "1" if eof else "0", ";".join("c" + cps(c) for c in chunks)]))
+        impl3.append(sse.run_iter_lines(chunks, eof))
+        out.evaluations += 1
+        out.count("lines:" + ("clean-end" if eof else "cut"))
+        out.count("lines:chunks:%s" % (len(chunks) if len(chunks) < 4 else "4+"))
+        if any(c == "" for c in chunks):
+            out.count("lines:has-empty-chunk")
+        ctx.append({"lines": True, "chunks": chunks, "eof": eof})
+    # ---- int() as the server / the frame parser apply it, str() as the reader applies it
+    for i in range(env.budget(400, 6000)):
+        t = gen_int_text(rng3)
+        try:
+            got = f"int={int(t)}"
+        except ValueError:
+            got = "int=error"
+        ops3.append("int|" + cps(t))
+        impl3.append(got)
+        out.count("int:" + ("ok" if got != "int=error" else "error"))
+        ctx.append({"int": True, "text": t})
+    for i in range(env.budget(100, 1500)):
+        nn = rng3.choice([-1, 0, 1, 9, 10, -10, 99, 100, 12345678901234567890]) if rng3.random() < 0.3 else rng3.randint(-2000, 10 ** rng3.randint(1, 12))
+        txt = str(nn)
+        ops3.append(f"cursor|{nn}")
+        impl3.append(f"text={cps(txt)} back={int(txt)}")
+        out.count("cursor:" + ("negative" if nn < 0 else "non-negative"))
+        ctx.append({"cursor": True, "n": nn})
+    out.evaluations += env.budget(500, 7500)
+
     # ---- malformed protocol lines
-    bad_ops = ["", "run", "run|x|-1|0|||", "run|3|-1|0|0:2:65||n~~", "run|3|-1|0|||q~~", "serve|a|0||", "run|3|-1|0|||d~~", "nonsense|1"]
+    bad_ops = ["", "run", "run|x|-1|0|||", "run|3|-1|0|0:2:65||n~~", "run|3|-1|0|||q~~", "serve|a|0||", "run|3|-1|0|||d~~", "nonsense|1",
+               "live|3|-1|||n~~", "live|3|-1|||n~~~1", "lines|2|", "lines|1|105", "int|x", "cursor|1.5"]
     bad_exp = ["bad-op"] * len(bad_ops)
 
     try:
-        model_out = Driver("sseclient").run(ops + ops2 + bad_ops)
+        model_out = Driver("sseclient").run(ops + ops2 + ops3 + bad_ops)
     except Exception as e:  # noqa: BLE001
         out.divergences.append(Divergence("sseclient", 0, "<driver>", repr(e), ""))
         return out
-    all_ops = ops + ops2 + bad_ops
-    all_impl = impl + impl2 + bad_exp
+    all_ops = ops + ops2 + ops3 + bad_ops
+    all_impl = impl + impl2 + impl3 + bad_exp
     out.traces_validated = len(all_ops)
     out.disagreements_checked = len(all_ops)
     d = diff_streams("sseclient", [o[:400] for o in all_ops], model_out, all_impl)
@@ -536,7 +713,7 @@ def run(env: Env) -> Outcome:
         if d.index < len(ctx):
             d.context = ctx[d.index]
             # a correspondence failure on a well-formed case is also reported as a replayable input
-            if not ctx[d.index].get("framing"):
+            if not any(ctx[d.index].get(k) for k in ("framing", "lines", "int", "cursor")):
                 out.violations.append(Violation("C17/model-disagrees", f"model: {d.model_out[:200]} / implementation: {d.impl_out[:200]}",
                                                 ctx[d.index]))
         out.divergences.append(d)
